@@ -242,7 +242,7 @@ fn case(item: u64, rng: &mut Rng, acc: &mut Acc, quick: bool, light: bool) {
             fails.push("return_metadata / print_debug_info changed the numerical result".into());
         }
     }
-    if item < 2 {
+    if acc.samples.is_empty() {
         acc.sample(json!({"graph": su.g.describe(), "probe_points": pts.len(), "history_calls": n_hist, "threads": n_threads, "overlapping_call_pairs": overlaps}));
     }
     if !fails.is_empty() {
